@@ -100,6 +100,11 @@ def thread_fn(port, calls, record):
                 port.send(m)
                 m.note = (m.note + 1) % 128          # changing the sent object afterwards must not be visible
                 out.append(('sent', c[1]))
+            elif c[0] == 'sendrt':
+                m = portsim.rt_msg_of(c[1])
+                port.send(m)
+                m.time = -7                          # the only attribute of a real-time message: same rule
+                out.append(('sent', c[1]))
             elif c[0] == 'poll':
                 r = port.poll()
                 out.append(('got', r))
@@ -129,6 +134,14 @@ def execute(prog, prefix, default='same', rng=None):
     try:
         port, ctx = make_world(kind, initial)
         s = sched.Sched(watchdog=5.0)
+        known = set()
+        for q_, l_ in ctx.get('guards', []):
+            known.add(id(q_))
+            known.add(id(l_))
+        for extra in (getattr(port, '_lock', None), getattr(port, '_messages', None), getattr(port, '_parser_lock', None)):
+            if extra is not None:
+                known.add(id(extra))
+        s.known = known
         records = [[] for _ in threads]
         progs = {NAMES[i]: thread_fn(port, calls, records[i]) for i, calls in enumerate(threads)}
         info = {'alts': [], 'last': None, 'n': 0}
@@ -183,7 +196,7 @@ def judge(prog, ob):
                 if [k for k in order if k in ks] != ks:
                     return f'messages of sender {i} come out in the order {[k for k in order if k in ks]}, they were put as {ks}'
         return None
-    sent_by = {i: [c[1] for c in calls if c[0] == 'send'] for i, calls in enumerate(threads)}
+    sent_by = {i: [c[1] for c in calls if c[0] in ('send', 'sendrt')] for i, calls in enumerate(threads)}
     all_sent = [k for i in sent_by for k in sent_by[i]]
     got = []
     for i, rec in enumerate(ob['records']):
@@ -392,6 +405,9 @@ def gen_programs(ck):
     progs.append(('pqueue', [], [[('putbytes', [next(ids), next(ids)])], [('putbytes', [next(ids), next(ids)])], [('qpoll',)]]))
     # echo with iter_pending
     progs.append(('echo', [next(ids)], [[('send', next(ids))], [('pending',)], [('poll',)]]))
+    # real-time messages (their only attribute is `time`): copy-on-send holds for them as well
+    progs.append(('echo', [], [[('sendrt', next(ids)), ('sendrt', next(ids))], [('poll',), ('poll',)]]))
+    progs.append(('multi', [], [[('sendrt', next(ids))], [('poll',), ('poll',)]]))
     return progs
 
 
